@@ -86,7 +86,7 @@ def gen_cases(tier, seed):
             case['ops'].append(['process', 1])
         case['ops'] += [['probe'], ['clear'], ['probe']]
         yield case
-    n = 1500 if tier == 'quick' else 16 * 5000
+    n = 4000 if tier == 'quick' else 16 * 5000
     for i in range(n):
         yield gen_one(random.Random(f'C02/{seed}/{tier}/{i}'), tier, i)
 
@@ -166,6 +166,28 @@ class C02Driver(wl.Driver):
         self.unjudged = set()       # uids whose delivery is a don't-care
         self.routes = set()
         self.max_postponed_cycle = 0
+        self.query_error = None
+
+    def in_callback(self, comp, kind, args):
+        """Read-only queries from inside a lifecycle callback: whatever the
+        transient state, a query must answer, not raise."""
+        if kind not in ('add', 'remove') or self.query_error is not None:
+            return
+        w = self.world
+        try:
+            for t in self.classes:
+                for e, c in w.get(t):
+                    pass
+            for e in self.mentioned[:6]:
+                w.get_components(e)
+                w.entity_exists(e)
+                for t in self.classes[:4]:
+                    w.has_component(e, t)
+                    w.get_component(e, t)
+            w.entities
+            self.res.stats['query_probes_inside_callbacks'] += 1
+        except Exception as ex:
+            self.query_error = (kind, comp.uid, f'{type(ex).__name__}: {ex}')
 
     def expected(self, trans):
         """Transitions that must produce a callback (mapping exists)."""
@@ -189,6 +211,12 @@ class C02Driver(wl.Driver):
             return
         if name == 'create' and op[2] is None and rec['note']['auto_taken']:
             res.stats['auto_id_collision_seen(C01)'] += 1
+        if self.query_error is not None:
+            res.div(at, 'query-raised-in-callback', 'a read-only World query '
+                    f'issued from inside an {self.query_error[0]} callback '
+                    f'(instance {self.query_error[1]}) raised', 'an answer',
+                    self.query_error[2], op=op)
+            return
 
         life = [x for x in rec['slice'] if x['kind'] in ('add', 'remove')
                 and x['uid'] not in self.unjudged]
